@@ -401,7 +401,7 @@ class SpecialSources(Suite):
     """stored results at the edge of their kinds - a generated sequence without items (a file of zero bytes), empty
     mappings, lists, arrays and directories - and a source directory that holds the working directory of a resumable
     task that was started and not finished, plus files the library did not write, also for a configuration that was
-    given a namespace of its own: after migration every task that had a
+    given a namespace or a name of its own: after migration every task that had a
     result has one in the target with the same value and runs nothing, and no file of the source is touched.
     Runtime check only."""
     name = 'special_sources'
@@ -410,7 +410,8 @@ class SpecialSources(Suite):
     def gen(self, rng, tier):
         return [dict(drys=d, unfinished=u, stray=st, verbose=v) for d in ([False], [True, False], [False, False])
                 for u in (False, True) for st in (False, True) for v in (False,)] + \
-               [dict(drys=[False, False], unfinished=u, stray=False, verbose=False, namespace='top') for u in (False, True)]
+               [dict(drys=[False, False], unfinished=u, stray=False, verbose=False, namespace='top') for u in (False, True)] + \
+               [dict(drys=d, unfinished=False, stray=False, verbose=False, cfgname='exp-factor3') for d in ([False], [True, False])]
 
     def run_impl(self, case):
         import sys, types
@@ -423,7 +424,7 @@ class SpecialSources(Suite):
             try:
                 exec(compile(SPECIAL_SRC, name, 'exec'), m.__dict__)
                 Path('exp.json').write_text(json.dumps({'tasks': [f'{name}.*'], 'finish': not case['unfinished']}))
-                cfg = Config(Path('data'), 'exp.json', namespace=case.get('namespace'))
+                cfg = Config(Path('data'), 'exp.json', namespace=case.get('namespace'), name=case.get('cfgname'))
                 old = cfg.chain(parameter_mode=False)
                 old_values, failed = {}, []
                 for n, t in old.tasks.items():
@@ -451,7 +452,7 @@ class SpecialSources(Suite):
                         steps.append(dict(error=f'{type(e).__name__}: {e}'[:200]))
                         break
                 m.RUNS.clear()
-                new = Config(Path('target'), 'exp.json', namespace=case.get('namespace')).chain()
+                new = Config(Path('target'), 'exp.json', namespace=case.get('namespace'), name=case.get('cfgname')).chain()
                 has = {n: bool(t.has_data) for n, t in new.tasks.items()}
                 vals = {n: describe_special(t.value) for n, t in new.tasks.items() if has[n]}
                 return dict(src0=src0, steps=steps, old_values=old_values, failed=failed, has=has, values=vals, ran=list(m.RUNS))
